@@ -4,13 +4,14 @@
            messages), ("in", "PauseBlock") (state_hook: the engine became 'paused'), ("in", "ResumeWake") (the main
            thread is about to resume/abort/stop/halt a paused engine), ("in", "Finalize") (the call is over, engine
            idle), ("in", "Update", obj, v) (the fake device is about to call its subscribers)
-  outputs: ("sub"/"clr", obj, run) device ledger, ("events", [(run, obj, v), ...]) Event documents emitted during one
+  outputs: ("sub", obj, run, channel) / ("clr", obj, run) device ledger, ("events", [(run, obj, v), ...]) Event documents emitted during one
            update (sorted), ("out", outcome) what a message returned/raised.
 Nothing is timing dependent: updates happen inside plan code (between messages), inside the coroutine the
 suspension waits for, or from the main thread while the engine is paused; no sleeps, no timers.
 
 Scenario steps (plan level):
-  ["open", key] ["close", key] ["monitor", key, obj] ["unmonitor", key, obj] ["update", obj, v] ["resume_msg"]
+  ["open", key] ["close", key] ["monitor", key, obj(, channel)] ["unmonitor", key, obj] ["update", obj, v(, channel)]
+  ["resume_msg"]        (channel: the event_type keyword of the 'monitor' message / the channel the device updates)
   ["pause", [updates...], decision]                      decision in resume/abort/stop/halt
   ["suspend", pre_steps, during, post_steps]             pre/post: simple steps run as pre_plan/post_plan;
        during: updates, optionally ending with ["suspend2", during2] (a second, overlapping suspension)
@@ -43,8 +44,9 @@ class Ctx:
 
 
 class Sig:
-    """Subscribable + Readable fake: a ledger of registrations; clear_sub removes every registration of the
-    callback (ophyd semantics); update calls every registration once."""
+    """Subscribable + Readable fake: a ledger of registrations, each made for a channel (subscribe's event_type
+    keyword; "default" without one); clear_sub removes every registration of the callback (ophyd semantics);
+    an update on a channel calls every registration made for that channel once."""
     parent = None
 
     def __init__(self, name, ctx):
@@ -70,21 +72,23 @@ class Sig:
                 return self.ctx.run_of_uid.get(c._run_start_uid, -1)
         return -1
 
-    def subscribe(self, cb, **kw):
-        self.ctx.add(("sub", self.name, self._run_of(cb)))
-        self.subs.append(cb)
+    def subscribe(self, cb, event_type=None, **kw):
+        chan = event_type or "default"
+        self.ctx.add(("sub", self.name, self._run_of(cb), chan))
+        self.subs.append((cb, chan))
 
     def clear_sub(self, cb):
         self.ctx.add(("clr", self.name, self._run_of(cb)))
-        self.subs = [s for s in self.subs if s is not cb]
+        self.subs = [s for s in self.subs if s[0] is not cb]
 
-    def update(self, v):
+    def update(self, v, chan="default"):
         self.v = v
-        self.ctx.add(("in", "Update", self.name, v))
+        self.ctx.add(("in", "Update", self.name, chan, v))
         self.ctx.cur_events = []
         try:
-            for cb in list(self.subs):
-                cb()
+            for cb, ch in list(self.subs):
+                if ch == chan:
+                    cb()
         finally:
             evs, self.ctx.cur_events = self.ctx.cur_events, None
         self.ctx.add(("events", sorted(evs)))
@@ -119,7 +123,7 @@ def run_scenario(case, RE):
         elif c == "close_run":
             ctx.add(("in", "CloseRun", msg.run))
         elif c == "monitor":
-            ctx.add(("in", "Monitor", msg.run, msg.obj.name))
+            ctx.add(("in", "Monitor", msg.run, msg.obj.name, msg.kwargs.get("event_type") or "default"))
         elif c == "unmonitor":
             ctx.add(("in", "Unmonitor", msg.run, msg.obj.name))
         elif c == "_start_suspender":
@@ -136,7 +140,7 @@ def run_scenario(case, RE):
     def simple(st):
         kind = st[0]
         if kind == "update":
-            ctx.sigs[st[1]].update(st[2])
+            ctx.sigs[st[1]].update(*st[2:])
             return
         if kind == "resume_msg":      # a plan may send the internal message itself: restore without a suspend
             yield Msg("_resume_from_suspender")
@@ -148,7 +152,8 @@ def run_scenario(case, RE):
                 yield Msg("close_run", run=st[1])
             elif kind == "monitor":
                 ctx.monctr += 1
-                yield Msg("monitor", ctx.sigs[st[2]], run=st[1], name="%s_mon%d" % (st[2], ctx.monctr))
+                kw = {"event_type": st[3]} if len(st) > 3 and st[3] != "default" else {}
+                yield Msg("monitor", ctx.sigs[st[2]], run=st[1], name="%s_mon%d" % (st[2], ctx.monctr), **kw)
             elif kind == "unmonitor":
                 yield Msg("unmonitor", ctx.sigs[st[2]], run=st[1])
             else:
@@ -165,7 +170,7 @@ def run_scenario(case, RE):
         async def coro():
             for act in during:
                 if act[0] == "update":
-                    ctx.sigs[act[1]].update(act[2])
+                    ctx.sigs[act[1]].update(*act[2:])
                 elif act[0] == "suspend2":
                     n0 = ctx.starts
                     RE.request_suspend(make_fut(act[1]), justification="second")
@@ -228,7 +233,7 @@ def run_scenario(case, RE):
                         break
                     st = ctx.pending.pop(0)
                     for act in st[1]:
-                        ctx.sigs[act[1]].update(act[2])
+                        ctx.sigs[act[1]].update(*act[2:])
                     ctx.add(("in", "ResumeWake"))
                     action = {"resume": RE.resume, "abort": RE.abort, "stop": RE.stop, "halt": RE.halt}[st[2]]
                 if RE.state != "idle":
@@ -239,5 +244,5 @@ def run_scenario(case, RE):
         RE.unsubscribe(tok)
         RE.msg_hook = None
         RE.state_hook = None
-    left = sum(len(s.subs) for s in ctx.sigs.values())
+    left = sum(len(s.subs) for s in ctx.sigs.values())   # registrations of any channel
     return {"log": [list(e) for e in ctx.log], "left": left, "errors": ctx.errors}
